@@ -1120,7 +1120,6 @@ func paramNameAt(fd *ast.FuncDecl, i int) string {
 	return ""
 }
 
-
 // mustPass computes the functions (among units) in which every path from entry to a returning exit
 // passes a node satisfying base, directly or through a call of another such function. Rules use it
 // so that a step that was moved into a helper still counts where the helper is called.
@@ -1193,7 +1192,6 @@ func mayDo(units []*FuncUnit, base func(u *FuncUnit, n ast.Node) bool) map[*type
 	return may
 }
 
-
 // typeBranches returns the statement lists that run when a value has the dynamic type whose name
 // ends in typeSuffix: the bodies of type-switch clauses listing exactly that type, and the bodies of
 // `if x, ok := v.(T); ok { ... }` statements (including else-if chains).
@@ -1222,5 +1220,33 @@ func typeBranches(body ast.Node, typeSuffix string) [][]ast.Stmt {
 		}
 		return true
 	})
+	return out
+}
+
+// argsOfParam: if e is (an identifier for) a parameter of u, the expressions passed for it at every
+// static call of u inside units (nil if e is not a parameter or u has no callers there).
+func argsOfParam(units []*FuncUnit, u *FuncUnit, e ast.Expr) []Site {
+	id, ok := ast.Unparen(e).(*ast.Ident)
+	if !ok {
+		return nil
+	}
+	v, ok := u.Info().Uses[id].(*types.Var)
+	if !ok || !isParamOf(u, v) {
+		return nil
+	}
+	idx := -1
+	sig := u.Fn.Type().(*types.Signature)
+	for i := 0; i < sig.Params().Len(); i++ {
+		if sig.Params().At(i) == v {
+			idx = i
+		}
+	}
+	var out []Site
+	for _, cs := range CallsTo(units, u.Fn) {
+		call := cs.Node.(*ast.CallExpr)
+		if idx < len(call.Args) {
+			out = append(out, Site{Unit: cs.Unit, Node: call, Expr: call.Args[idx]})
+		}
+	}
 	return out
 }
